@@ -401,6 +401,11 @@ func (k Keeper) ValidatorByConsAddrForChainID(
 		return stakingtypes.Validator{}, false
 	}
 	val.Jailed = k.IsOperatorJailedForChainID(ctx, consAddr, chainIDWithoutRevision)
+	// stakingtypes.NewValidator sets the status to Unbonded. x/evidence drops equivocation evidence
+	// for an unbonded validator, and an address this module still resolves is either validating or
+	// within its unbonding period: leave the status unspecified (IterateBondedValidatorsByPower
+	// sets Bonded for the validators of the current set).
+	val.Status = stakingtypes.Unspecified
 
 	// set the tokens, delegated shares and minimum self delegation for unjail
 	minSelfDelegation, err := k.avsKeeper.GetAVSMinimumSelfDelegation(ctx, avsAddrStr)
